@@ -382,7 +382,16 @@ func run(c *Case) (*outcome, *vkit.Violation, error) {
 				return o, vkit.Violf("deadlock", "round %d did not complete within 21 s; all %d unfinished requests are blocked in the locker with unchanged stacks (requests %+v, steer %v)\n%s", ri, n2, round.Reqs, round.Steer, s1), nil
 			}
 
-			return o, nil, fmt.Errorf("round %d did not complete within 21 s but no locker deadlock could be confirmed (%d of %d, then %d of %d unfinished requests blocked in the locker)", ri, n1, a1, n2, a2)
+			// not (only) the locker: requests that can never finish for any other reason
+			if stacks, ok := vkit.ConfirmStall(4, 3*time.Second, "harness/c15.run.func"); ok {
+				if len(stacks) > 6000 {
+					stacks = stacks[:6000] + "\n..."
+				}
+
+				return o, vkit.Violf("requests-never-complete", "round %d did not complete within 21 s; over a further 9 s every unfinished request kept an identical stack, none was running or in a system call, and no other goroutine of the process was active (requests %+v)\n%s", ri, round.Reqs, stacks), nil
+			}
+
+			return o, nil, fmt.Errorf("round %d did not complete within 21 s but no deadlock could be confirmed (%d of %d, then %d of %d unfinished requests blocked in the locker)", ri, n1, a1, n2, a2)
 		}
 		if un := unreleased(rl.Snapshot()); len(un) > 0 {
 			return o, vkit.Violf("lock-not-released", "round %d: key locks still held after every request returned: %v", ri, un), nil
@@ -554,7 +563,13 @@ func TestC15Load(t *testing.T) {
 			if n1 >= 2 && n2 == n1 && a1 == n1 && a2 == n2 && s1 == s2 {
 				vkit.Report(rt, "C15", "TestC15Load", map[string]any{"plans": plans}, vkit.Violf("deadlock.sustained-load", "sustained load did not complete within 61 s; %d goroutines blocked in the locker with unchanged stacks\n%s", n2, s1))
 			}
-			rt.Fatalf("INFRA: sustained load did not complete but no locker deadlock could be confirmed")
+			if stacks, ok := vkit.ConfirmStall(4, 3*time.Second, "harness/c15.TestC15Load.func"); ok {
+				if len(stacks) > 6000 {
+					stacks = stacks[:6000] + "\n..."
+				}
+				vkit.Report(rt, "C15", "TestC15Load", map[string]any{"plans": plans}, vkit.Violf("requests-never-complete.sustained-load", "sustained load did not complete within 61 s; over a further 9 s every unfinished request kept an identical stack and no goroutine of the process was active\n%s", stacks))
+			}
+			rt.Fatalf("INFRA: sustained load did not complete but no deadlock could be confirmed")
 		}
 		st.Close()
 		vkit.S.Eval()
